@@ -242,7 +242,8 @@ type party struct {
 	rt     *fakeRT
 	login  http.Handler
 	cb     http.Handler
-	next   string   // what stateFn returns
+	states []string // what stateFn returns, in call order
+	nest   func()   // pending re-entrant login, run while the current login evaluates its URL options
 	called []string // handlers that ran, as Coq terms
 }
 
@@ -278,7 +279,23 @@ func newParty(w *world, cfg config, pemKey []byte) (*party, error) {
 	for _, kv := range cfg.extra {
 		up = append(up, rp.WithURLParam(kv[0], kv[1]))
 	}
-	p.login = rp.AuthURLHandler(func() string { return p.next }, party, up...)
+	// always present, contributes no parameter: when a nested login is pending it runs a
+	// complete second AuthURLHandler request on the same handler value before returning
+	up = append(up, func() []oauth2.AuthCodeOption {
+		if f := p.nest; f != nil {
+			p.nest = nil
+			f()
+		}
+		return nil
+	})
+	p.login = rp.AuthURLHandler(func() string {
+		if len(p.states) == 0 {
+			return "state-queue-empty"
+		}
+		s := p.states[0]
+		p.states = p.states[1:]
+		return s
+	}, party, up...)
 	p.cb = rp.CodeExchangeHandler(func(_ http.ResponseWriter, _ *http.Request, _ *oidc.Tokens[*oidc.IDTokenClaims], state string, _ rp.RelyingParty) {
 		p.called = append(p.called, emit.Ctor("HApp", emit.Str(state)))
 	}, party)
@@ -333,6 +350,7 @@ type op struct {
 	post  bool
 	tokOK bool
 	apply bool
+	nested *op   // start: a second login that runs while this one is between computing its challenge and rendering its URL
 	e     entry  // set (resolved while running when setKind >= 0)
 	setKind int
 	name  string // del
@@ -419,54 +437,81 @@ func (p *party) runOps(r drv.Rand, j jar, ops []op) result {
 		}
 		switch o.kind {
 		case "start":
-			p.next = o.state
+			// states handed out by stateFn in call order: outer login first, then the
+			// login that runs re-entrantly while the outer one renders its URL
+			p.states = []string{o.state}
 			p.called = nil
 			req := httptest.NewRequest("GET", "https://rp.example/login", nil)
 			attach(req, j)
 			rec := httptest.NewRecorder()
+			var nestedRec *httptest.ResponseRecorder
+			if o.nested != nil {
+				p.states = append(p.states, o.nested.state)
+				jn := j
+				p.nest = func() {
+					nreq := httptest.NewRequest("GET", "https://rp.example/login", nil)
+					attach(nreq, jn)
+					nestedRec = httptest.NewRecorder()
+					p.login.ServeHTTP(nestedRec, nreq)
+				}
+			}
 			if pn := drv.Catch(func() { p.login.ServeHTTP(rec, req) }); pn != "" {
 				res.panicked = true
 				return res
 			}
-			hr := rec.Result()
-			cs, csCoq := p.cookieCmds(hr)
-			verifier := ""
-			for _, c := range cs {
-				if !c.del && c.name == "pkce" && c.e.sym.mac {
-					verifier = c.e.sym.value
-					res.htab[verifier] = oidc.NewSHACodeChallenge(verifier)
-				}
+			p.nest = nil
+			// the nested login's response is complete first; the browser applies it first
+			type done struct {
+				state string
+				hr    *http.Response
+				how   string
 			}
-			res.opsCoq = append(res.opsCoq, emit.Ctor("OStart", emit.Str(o.state), emit.Str(verifier)))
-			loc := hr.Header.Get("Location")
-			if hr.StatusCode != http.StatusFound || len(p.called) > 0 || loc == "" {
-				res.evsCoq = append(res.evsCoq, "EvOther")
-			} else {
-				base, rawq, _ := strings.Cut(loc, "?")
-				vals, err := url.ParseQuery(rawq)
-				var ps [][2]string
-				if err != nil {
-					ps = append(ps, [2]string{"<unparsable>", rawq})
-				}
-				keys := make([]string, 0, len(vals))
-				for k := range vals {
-					keys = append(keys, k)
-				}
-				sort.Strings(keys)
-				for _, k := range keys {
-					for _, v := range vals[k] {
-						ps = append(ps, [2]string{k, v})
+			var finished []done
+			if o.nested != nil && nestedRec != nil {
+				finished = append(finished, done{o.nested.state, nestedRec.Result(), "nested"})
+			}
+			finished = append(finished, done{o.state, rec.Result(), "outer"})
+			for _, d := range finished {
+				hr := d.hr
+				cs, csCoq := p.cookieCmds(hr)
+				verifier := ""
+				for _, c := range cs {
+					if !c.del && c.name == "pkce" && c.e.sym.mac {
+						verifier = c.e.sym.value
+						res.htab[verifier] = oidc.NewSHACodeChallenge(verifier)
 					}
 				}
-				res.evsCoq = append(res.evsCoq, emit.Ctor("EvAuth", csCoq, emit.Str(base), pairs(ps)))
-			}
-			res.human = append(res.human, map[string]any{"op": "start", "state": o.state, "location": loc})
-			for _, c := range cs {
-				if !c.del {
-					minted = append(minted, c.e)
+				res.opsCoq = append(res.opsCoq, emit.Ctor("OStart", emit.Str(d.state), emit.Str(verifier)))
+				loc := hr.Header.Get("Location")
+				if hr.StatusCode != http.StatusFound || len(p.called) > 0 || loc == "" {
+					res.evsCoq = append(res.evsCoq, "EvOther")
+				} else {
+					base, rawq, _ := strings.Cut(loc, "?")
+					vals, err := url.ParseQuery(rawq)
+					var ps [][2]string
+					if err != nil {
+						ps = append(ps, [2]string{"<unparsable>", rawq})
+					}
+					keys := make([]string, 0, len(vals))
+					for k := range vals {
+						keys = append(keys, k)
+					}
+					sort.Strings(keys)
+					for _, k := range keys {
+						for _, v := range vals[k] {
+							ps = append(ps, [2]string{k, v})
+						}
+					}
+					res.evsCoq = append(res.evsCoq, emit.Ctor("EvAuth", csCoq, emit.Str(base), pairs(ps)))
 				}
+				res.human = append(res.human, map[string]any{"op": "start", "overlap": d.how, "state": d.state, "location": loc})
+				for _, c := range cs {
+					if !c.del {
+						minted = append(minted, c.e)
+					}
+				}
+				j = apply(j, cs)
 			}
-			j = apply(j, cs)
 		case "callback":
 			p.called = nil
 			p.rt.ok = o.tokOK
@@ -611,6 +656,10 @@ func main() {
 	for i := 0; i < n; i++ {
 		wd := newWorld(r, r.Bool())
 		c := genConfig(r)
+		kind := i % 12
+		if kind >= 10 && r.Chance(5, 6) {
+			c.pkce = true
+		}
 		p, err := newParty(wd, c, pemKey)
 		if err != nil {
 			fmt.Fprintln(os.Stderr, "NewRelyingPartyOAuth:", err)
@@ -619,7 +668,6 @@ func main() {
 		var j0 jar
 		var ops []op
 		tags := []string{fmt.Sprintf("pkce=%v", c.pkce), fmt.Sprintf("jwt=%v", c.jwt)}
-		kind := i % 10
 		switch {
 		case kind < 3: // (jar, query) pair: scripted jar, one callback
 			tags = append(tags, "kind=pair")
@@ -702,6 +750,37 @@ func main() {
 						post: r.Chance(1, 8), tokOK: r.Chance(5, 6), apply: r.Chance(7, 8)})
 				}
 			}
+		case kind >= 10: // overlapping logins: a second login runs re-entrantly inside the first one's URL rendering
+			variant := (i / 12) % 4
+			tags = append(tags, "kind=overlap", fmt.Sprintf("overlap=%d", variant))
+			st := []string{"st-1", "st-2", "st-3", "st-4"}
+			if r.Chance(1, 5) {
+				st = []string{drv.Pick(r, statePool), drv.Pick(r, statePool), "st-3", drv.Pick(r, statePool)}
+			}
+			cb := func(k int) op {
+				return op{kind: "callback", q: callbackQuery(r, st[k], fmt.Sprintf("code-%d", k+1)), post: r.Chance(1, 8), tokOK: r.Chance(5, 6), apply: r.Chance(7, 8)}
+			}
+			shuffled := func(ks ...int) []op {
+				r.Shuffle(len(ks), func(a, b int) { ks[a], ks[b] = ks[b], ks[a] })
+				var out []op
+				for _, k := range ks {
+					out = append(out, cb(k))
+				}
+				return out
+			}
+			nest := func(outer, inner int) op {
+				return op{kind: "start", state: st[outer], nested: &op{kind: "start", state: st[inner]}}
+			}
+			switch variant {
+			case 0: // login 1 overlapped by login 2
+				ops = append([]op{nest(0, 1)}, shuffled(0, 1)...)
+			case 1: // login 1, then login 2 overlapped by login 3
+				ops = append([]op{{kind: "start", state: st[0]}, nest(1, 2)}, shuffled(0, 1, 2)...)
+			case 2:
+				ops = []op{nest(0, 1), cb(0), nest(2, 3), cb(2), cb(3)}
+			default:
+				ops = []op{{kind: "start", state: st[0]}, cb(0), nest(1, 2), cb(1), cb(2)}
+			}
 		default: // random history; kind 9 also replays old valid cookies (not "honest")
 			replay := kind == 9
 			if replay {
@@ -725,7 +804,12 @@ func main() {
 				switch r.IntN(10) {
 				case 0, 1, 2:
 					s := drv.Pick(r, statePool)
-					ops = append(ops, op{kind: "start", state: s})
+					o := op{kind: "start", state: s}
+					if r.Chance(1, 5) { // overlapped by another login
+						o.nested = &op{kind: "start", state: drv.Pick(r, statePool)}
+						started = append(started, o.nested.state)
+					}
+					ops = append(ops, o)
 					started = append(started, s)
 				case 3, 4, 5, 6:
 					s := started[len(started)-1]
@@ -773,7 +857,7 @@ func main() {
 			Human: map[string]any{"config": fmt.Sprintf("%+v", c), "jar": j0.coq(), "steps": res.human}})
 	}
 	err = w.Close(emit.Meta{Property: "C17", Tier: cfg.Tier, Seed: cfg.Seed,
-		Rule: "each case = one RP configuration (PKCE, JWT profile, client, redirect URI, scopes, URL options, auth style, cookie encryption) + initial jar + history in one browser jar. kind=pair: scripted jar (valid / other value / other keys / other name / swapped / truncated / flipped / random / plaintext / missing / duplicate cookies) and one callback query; kind=ordering: every interleaving of 2 or 3 logins and their callbacks, cycled; kind=history: random logins, callbacks (GET/POST, lost responses), deletions and unacceptable foreign cookie writes; kind=replay: histories that also re-insert older validly minted cookies. Non-trivial = the model's path class != 0 (anything beyond 'no state cookie in the jar'); distinct = distinct (input, path).",
+		Rule: "each case = one RP configuration (PKCE, JWT profile, client, redirect URI, scopes, URL options, auth style, cookie encryption) + initial jar + history in one browser jar. kind=pair: scripted jar (valid / other value / other keys / other name / swapped / truncated / flipped / random / plaintext / missing / duplicate cookies) and one callback query; kind=ordering: every interleaving of 2 or 3 logins and their callbacks, cycled; kind=overlap: a login during whose URL rendering a complete second login runs re-entrantly on the same handler value (1st of 2, 2nd of 3, twice, after a finished flow); kind=history: random logins (some overlapped), callbacks (GET/POST, lost responses), deletions and unacceptable foreign cookie writes; kind=replay: histories that also re-insert older validly minted cookies. Non-trivial = the model's path class != 0 (anything beyond 'no state cookie in the jar'); distinct = distinct (input, path).",
 		Extra: map[string]any{"orderings_2": len(ord2), "orderings_3": len(ord3), "ordering_cases": ordIdx, "dropped": dropped},
 	})
 	if err != nil {
